@@ -1,19 +1,241 @@
-import ErgVerif.C21.Spec
+import ErgVerif.C21.SortProofs
 /-!
-# C21 — property theorems (first stage: witnesses of the pinned-commit defects)
+# C21 — Module dependency graph operations match a reference graph
+
+Property theorems only. Model: `ErgVerif/Shared/Graph.lean` (transcription of `ModuleGraph` in
+crates/erg_compiler/module/graph.rs and of `tsort`/`dfs`/`reorder_by_key` in crates/erg_common/tsort.rs, after the
+`fix:` commit f50fd18b; the pinned-commit `rename_path`/`sort` are kept as `legacyRenamePath`/`legacySort`) and
+`ErgVerif/C21/Model.lean` (operations, `step`, `run`). Spec: `ErgVerif/C21/Spec.lean` — a reference graph `RG` (node
+predicate, edge predicate), `Reach1` = its transitive closure, `Spec.step`/`Spec.res` = what each operation means and must
+report. `abs s` is the reference graph a state stands for, `Inv s` the representation invariant (the index is exactly
+the position map of the vector; dependency lists are duplicate-free).
+
+All theorems hold for every iteration order of the hash sets (dependency lists are arbitrary lists here).
 -/
 namespace ErgVerif.C21
 open ErgVerif.Graph
 
-/-- finding #9 at the pinned commit: after `rename_path(2, 3)` the index still maps 2; `get_node(3)` is `None`
-    and `get_node(2)` returns the node that is now called 3 -/
-theorem C21_legacy_witness_rename :
-    let s := legacyRun MG.new [.add 1, .add 2, .rename 2 3]
-    s.getNode 3 = .ok none ∧ s.getNode 2 = .ok (some ⟨3, []⟩) := by decide
+/-! ## invariant, one-step refinement, histories -/
 
-/-- after the fix the same history answers as a reference graph does -/
-theorem C21_fixed_witness_rename :
-    let s := run MG.new [.add 1, .add 2, .rename 2 3]
-    s.getNode 3 = .ok (some ⟨3, []⟩) ∧ s.getNode 2 = .ok none := by decide
+/-- the empty graph satisfies the representation invariant -/
+theorem C21_inv_init : Inv MG.new := Inv.init
+
+/-- every operation (including `rename_path`, after the fix) preserves the representation invariant -/
+theorem C21_inv {s : MG} (h : Inv s) (op : Op) : Inv (step s op).1 := (step_spec h op).1
+
+/-- per-operation refinement: the new state stands for the reference graph after the same operation, and the
+    reported result (unit / Ok / CycleDetected / sort Ok / CyclicReference / KeyNotFound) is the one a reference graph
+    prescribes -/
+theorem C21_refine {s : MG} (h : Inv s) (op : Op) :
+    abs (step s op).1 = Spec.step (abs s) op ∧ Spec.res (abs s) op (step s op).2 := (step_spec h op).2
+
+/-- no panic site (`graph[i]`, `Vec::remove`, `unreachable!`, `unwrap`) and no fuel exhaustion is reachable -/
+theorem C21_no_crash {s : MG} (h : Inv s) (op : Op) (e : Err) : (step s op).2 ≠ .crash e :=
+  res_ne_crash _ _ _ (step_spec h op).2.2 e
+
+/-- history theorem: after ANY sequence of operations from the empty graph (no bound on length or on the path
+    universe) the state satisfies the invariant and stands for the reference graph after the same sequence -/
+theorem C21_history (ops : List Op) :
+    Inv (run MG.new ops) ∧ abs (run MG.new ops) = Spec.run RG.empty ops := by
+  have := run_spec Inv.init ops
+  rw [abs_new] at this
+  exact this
+
+/-- … and the next operation after any history reports what the reference graph prescribes, without crashing -/
+theorem C21_history_result (ops : List Op) (op : Op) :
+    Spec.res (Spec.run RG.empty ops) op (step (run MG.new ops) op).2 ∧
+    ∀ e, (step (run MG.new ops) op).2 ≠ .crash e := by
+  obtain ⟨hinv, habs⟩ := C21_history ops
+  have := (step_spec hinv op).2.2
+  rw [habs] at this
+  exact ⟨this, res_ne_crash _ _ _ this⟩
+
+/-! ## queries (stated for any state satisfying the invariant; `C21_history_queries` instantiates them) -/
+
+/-- `get_node(p)`: `Some` iff p is a node; the returned node is named p and lists exactly p's out-edges -/
+theorem C21_query_get_node {s : MG} (h : Inv s) (p : Path) :
+    (∃ n, s.getNode p = .ok (some n) ∧ (abs s).nodes p ∧ n.id = p ∧ n.deps.Nodup ∧
+        ∀ d, d ∈ n.deps ↔ (abs s).edges p d) ∨
+    (s.getNode p = .ok none ∧ ¬ (abs s).nodes p) := getNode_spec h p
+
+/-- `depends_on(p, t)` is the edge relation -/
+theorem C21_query_depends_on {s : MG} (h : Inv s) (p t : Path) :
+    ∃ b, s.dependsOn p t = .ok b ∧ (b = true ↔ (abs s).edges p t) := dependsOn_spec h p t
+
+/-- `deep_depends_on(p, t)` (DFS with a visited set) is reachability by at least one edge — on any graph the
+    invariant allows, cyclic or with dangling edges — and never fails -/
+theorem C21_query_deep_depends_on {s : MG} (h : Inv s) (p t : Path) :
+    ∃ b, s.deepDependsOn p t = .ok b ∧ (b = true ↔ (abs s).Reach1 p t) := deepDependsOn_spec h p t
+
+/-- `children(p)`: the nodes with an edge to p, each once -/
+theorem C21_query_children {s : MG} (h : Inv s) (p : Path) :
+    (s.children p).Nodup ∧ ∀ x, x ∈ s.children p ↔ ((abs s).nodes x ∧ (abs s).edges x p) := children_spec h p
+
+/-- `parents(p)`: `None` iff p is not a node, otherwise p's out-neighbours, each once -/
+theorem C21_query_parents {s : MG} (h : Inv s) (p : Path) :
+    (∃ l, s.parents p = .ok (some l) ∧ (abs s).nodes p ∧ l.Nodup ∧ ∀ d, d ∈ l ↔ (abs s).edges p d) ∨
+    (s.parents p = .ok none ∧ ¬ (abs s).nodes p) := parents_spec h p
+
+/-- `ancestors(p)`: exactly the paths reachable from p by at least one edge (p itself iff it lies on a cycle),
+    each once -/
+theorem C21_query_ancestors {s : MG} (h : Inv s) (p : Path) :
+    ∃ l, s.ancestors p = .ok l ∧ l.Nodup ∧ ∀ y, y ∈ l ↔ (abs s).Reach1 p y := ancestors_spec h p
+
+/-- after any history every query answers as the reference graph of that history does -/
+theorem C21_history_queries (ops : List Op) (p t : Path) :
+    let s := run MG.new ops
+    let g := Spec.run RG.empty ops
+    (∃ b, s.dependsOn p t = .ok b ∧ (b = true ↔ g.edges p t)) ∧
+    (∃ b, s.deepDependsOn p t = .ok b ∧ (b = true ↔ g.Reach1 p t)) ∧
+    (∀ x, x ∈ s.children p ↔ (g.nodes x ∧ g.edges x p)) ∧
+    (∃ l, s.ancestors p = .ok l ∧ ∀ y, y ∈ l ↔ g.Reach1 p y) ∧
+    ((∃ n, s.getNode p = .ok (some n) ∧ g.nodes p ∧ n.id = p ∧ ∀ d, d ∈ n.deps ↔ g.edges p d) ∨
+     (s.getNode p = .ok none ∧ ¬ g.nodes p)) := by
+  obtain ⟨hinv, habs⟩ := C21_history ops
+  intro s g
+  have e : abs s = g := habs
+  rw [← e]
+  refine ⟨dependsOn_spec hinv p t, deepDependsOn_spec hinv p t, (children_spec hinv p).2, ?_, ?_⟩
+  · obtain ⟨l, h1, _, h2⟩ := ancestors_spec hinv p; exact ⟨l, h1, h2⟩
+  · rcases getNode_spec hinv p with ⟨n, h1, h2, h3, _, h4⟩ | h'
+    · exact Or.inl ⟨n, h1, h2, h3, h4⟩
+    · exact Or.inr h'
+
+/-- the iteration order of the dependency hash sets is irrelevant: re-ordering every dependency list keeps the invariant
+    and the reference graph (this is what the correspondence driver does when it adopts the real iteration order) -/
+theorem C21_order_irrelevant {s : MG} (h : Inv s) (f : Node → Node) (hid : ∀ n, (f n).id = n.id)
+    (hperm : ∀ n ∈ s.graph, (f n).deps.Perm n.deps) :
+    Inv { s with graph := s.graph.map f } ∧ abs { s with graph := s.graph.map f } = abs s := reorder_spec h f hid hperm
+
+/-! ## inc_ref: cycle refusal -/
+
+/-- `inc_ref(a, b)` never fails; it refuses exactly when a ≠ b and a is reachable from b (the edge would close a
+    cycle); when it refuses, the edge relation is unchanged and the only possible change is that the referrer `a` has
+    been registered (`add_node_if_none(referrer)` precedes the test) -/
+theorem C21_incref_cycle {s : MG} (h : Inv s) (a b : Path) :
+    ∃ s' r, s.incRef a b = .ok (s', r) ∧ (r = false ↔ (a ≠ b ∧ (abs s).Reach1 b a)) ∧
+      (r = false → (abs s').edges = (abs s).edges ∧ ∀ x, (abs s').nodes x ↔ ((abs s).nodes x ∨ x = a)) := by
+  obtain ⟨s', r, hr, _, habs, hres⟩ := incRef_spec h a b
+  refine ⟨s', r, hr, hres, ?_⟩
+  intro hf
+  obtain ⟨hab, hreach⟩ := hres.mp hf
+  rw [habs]
+  refine ⟨?_, fun x => Iff.rfl⟩
+  funext x y
+  apply propext
+  show ((abs s).edges x y ∨ _) ↔ _
+  constructor
+  · rintro (e | ⟨_, _, _, hn⟩)
+    · exact e
+    · exact absurd hreach hn
+  · exact Or.inl
+
+/-- if the referrer is already registered, a refused `inc_ref` leaves the reference graph exactly as it was -/
+theorem C21_incref_refused_unchanged {s : MG} (h : Inv s) (a b : Path) (ha : (abs s).nodes a)
+    (s' : MG) (hr : s.incRef a b = .ok (s', false)) : abs s' = abs s := by
+  obtain ⟨s'', r, hr', _, hunch⟩ := C21_incref_cycle h a b
+  rw [hr] at hr'; cases hr'
+  obtain ⟨he, hn⟩ := hunch rfl
+  apply RG.ext'
+  · intro x; rw [hn x]; exact ⟨fun hx => hx.elim id (fun e => e ▸ ha), Or.inl⟩
+  · intro x y; rw [he]
+
+/-- acyclicity is preserved by `inc_ref` -/
+theorem C21_acyclic {s : MG} (h : Inv s) (hac : (abs s).Acyclic) (a b : Path) :
+    (abs (step s (.inc a b)).1).Acyclic := by
+  rw [(step_spec h (.inc a b)).2.1]
+  exact spec_inc_acyclic _ hac a b
+
+/-- the graph after any history without `rename_path` is acyclic (a rename onto a registered path can merge two
+    nodes into a cycle — in the reference graph as well, so that is the meaning of the operation, not a defect) -/
+theorem C21_history_acyclic (ops : List Op) (hop : ∀ op ∈ ops, ∀ o n, op ≠ .rename o n) :
+    (abs (run MG.new ops)).Acyclic := by
+  rw [(C21_history ops).2]
+  exact spec_run_acyclic _ RG.empty_acyclic ops hop
+
+/-! ## tsort / sort -/
+
+/-- `tsort` never panics (`unwrap` in `reorder_by_key`) and the recursion depth never exceeds the number of nodes -/
+theorem C21_tsort_total (g : List Node) : tsort g ≠ .error .fuel ∧ tsort g ≠ .error .crash := tsort_total g
+
+/-- soundness: a successful `tsort` returns a permutation of its input in which every node comes after all nodes
+    it depends on -/
+theorem C21_tsort_sound (g g' : List Node) (hnd : (g.map (·.id)).Nodup) (h : tsort g = .ok g') :
+    g'.Perm g ∧ DepsFirst g' := tsort_sound g g' hnd h
+
+/-- completeness on closed graphs: CyclicReference is reported exactly when a cycle exists, and the sort succeeds
+    exactly when there is none -/
+theorem C21_tsort_complete (g : List Node) (hnd : (g.map (·.id)).Nodup) (hc : GClosed g) :
+    (tsort g = .error .cycle ↔ ¬ GAcyclic g) ∧ ((∃ g', tsort g = .ok g') ↔ GAcyclic g) := tsort_complete g hnd hc
+
+/-- error reports are sound on every graph: CyclicReference only if there is a cycle, KeyNotFound only if some
+    dependency is not a node; and a graph with a dangling dependency is never sorted -/
+theorem C21_tsort_errors (g : List Node) :
+    (tsort g = .error .cycle → ¬ GAcyclic g) ∧ (tsort g = .error .keyNotFound → ¬ GClosed g) ∧
+    ((g.map (·.id)).Nodup → ¬ GClosed g → tsort g = .error .keyNotFound ∨ tsort g = .error .cycle) :=
+  ⟨tsort_cycle_sound g, tsort_knf_sound g, tsort_not_closed g⟩
+
+/-- `ModuleGraph::sort`: on success the vector is a permutation in dependency order, the index is rebuilt
+    consistently and the reference graph is unchanged (and it was closed and acyclic); on failure the state is
+    untouched (after the fix) and the report is sound -/
+theorem C21_sort {s : MG} (h : Inv s) :
+    (∃ s', s.sort = (s', .ok ()) ∧ Inv s' ∧ s'.graph.Perm s.graph ∧ DepsFirst s'.graph ∧ abs s' = abs s ∧
+        (abs s).Closed ∧ (abs s).Acyclic) ∨
+    (s.sort = (s, .error .cycle) ∧ ¬ (abs s).Acyclic) ∨
+    (s.sort = (s, .error .keyNotFound) ∧ ¬ (abs s).Closed) := by
+  rcases sorted_spec h with ⟨s', hs, rest⟩ | ⟨hs, hac⟩ | ⟨hs, hcl⟩
+  · exact Or.inl ⟨s', by simp [MG.sort, hs], rest⟩
+  · exact Or.inr (Or.inl ⟨by simp [MG.sort, hs], hac⟩)
+  · exact Or.inr (Or.inr ⟨by simp [MG.sort, hs], hcl⟩)
+
+/-! ## the pinned-commit behaviour (findings fixed by f50fd18b), machine-checked at the witnesses -/
+
+/-- finding #9: after `rename_path(2, 3)` the index still maps 2: `get_node(3)` is `None` and `get_node(2)`
+    returns the node that is now called 3; after the fix the answers are those of the reference graph -/
+theorem C21_legacy_witness_rename :
+    (legacyRun MG.new [.add 1, .add 2, .rename 2 3]).getNode 3 = .ok none ∧
+    (legacyRun MG.new [.add 1, .add 2, .rename 2 3]).getNode 2 = .ok (some ⟨3, []⟩) ∧
+    (run MG.new [.add 1, .add 2, .rename 2 3]).getNode 3 = .ok (some ⟨3, []⟩) ∧
+    (run MG.new [.add 1, .add 2, .rename 2 3]).getNode 2 = .ok none := by decide
+
+/-- the pinned-commit invariant failure behind it -/
+theorem C21_legacy_rename_breaks_inv : ¬ Inv (legacyRun MG.new [.add 1, .add 2, .rename 2 3]) := by
+  intro h
+  have := (h.idx 2 1).mp (by decide)
+  revert this; decide
+
+/-- pinned commit: `rename_path(1, 1)` deletes the edge 0 → 1 -/
+theorem C21_legacy_witness_rename_self :
+    (legacyRun MG.new [.inc 0 1, .rename 1 1]).dependsOn 0 1 = .ok false ∧
+    (run MG.new [.inc 0 1, .rename 1 1]).dependsOn 0 1 = .ok true := by decide
+
+/-- pinned commit: renaming onto a registered path leaves two nodes with the same id -/
+theorem C21_legacy_witness_rename_onto :
+    (legacyRun MG.new [.inc 0 1, .inc 2 3, .rename 2 0]).entries = [0, 0] ∧
+    (run MG.new [.inc 0 1, .inc 2 3, .rename 2 0]).entries = [0] ∧
+    (run MG.new [.inc 0 1, .inc 2 3, .rename 2 0]).getNode 0 = .ok (some ⟨0, [3]⟩) := by decide
+
+/-- pinned commit: a failing `sort` leaves the default (empty) graph behind -/
+theorem C21_legacy_witness_sort :
+    legacyStep (run MG.new [.inc 0 1]) .sort = (MG.new, .sortErr .keyNotFound) ∧
+    step (run MG.new [.inc 0 1]) .sort = (run MG.new [.inc 0 1], .sortErr .keyNotFound) := by decide
+
+/-! ## non-vacuity -/
+
+/-- a non-trivial state satisfying `Inv` (hypothesis of the one-step and query theorems) -/
+example : Inv (run MG.new [.inc 0 1, .inc 1 2, .add 3, .remove 1, .rename 0 4]) := (C21_history _).1
+
+/-- a refusal really happens, and an acceptance too -/
+example : ((run MG.new [.inc 0 1, .inc 1 2]).incRef 2 0).map (·.2) = .ok false ∧
+          ((run MG.new [.inc 0 1, .inc 1 2]).incRef 0 2).map (·.2) = .ok true := by decide
+
+/-- `deep_depends_on` answers `true` through an intermediate node and `false` against the edge direction -/
+example : (run MG.new [.inc 0 1, .inc 1 2]).deepDependsOn 0 2 = .ok true ∧
+          (run MG.new [.inc 0 1, .inc 1 2]).deepDependsOn 2 0 = .ok false ∧
+          (run MG.new [.inc 0 1, .inc 1 2]).ancestors 0 = .ok [1, 2] := by decide
+
+/-- a rename onto a registered path can create a cycle, which `sort` then reports -/
+example : step (run MG.new [.inc 1 0, .inc 0 2, .add 2, .rename 1 2]) .sort =
+    (run MG.new [.inc 1 0, .inc 0 2, .add 2, .rename 1 2], .sortErr .cycle) := by decide
 
 end ErgVerif.C21
